@@ -163,7 +163,7 @@ LITS = [
     (b"!",),
 ]
 
-TYPES = {"SOA": 6, "NS": 2, "A": 1, "TXT": 16, "CNAME": 5}
+TYPES = {"SOA": 6, "NS": 2, "A": 1, "TXT": 16, "CNAME": 5, "RRSIG": 46}
 RDTEXT = {
     # targets outside both origins: the zone reader must not relativize them, so that the
     # rdata loaded from text and the rdata passed to a transaction are the same value
@@ -172,6 +172,8 @@ RDTEXT = {
     "A": ["10.0.0.1", "10.0.0.2"],
     "TXT": ['"t1"', '"t2"'],
     "CNAME": ["c1.nic.test.", "c2.nic.test."],
+    # only signatures over CNAME are generated: CNAME-kind data like the CNAME itself (dns.node)
+    "RRSIG": ["CNAME 8 2 300 20300101000000 20200101000000 1 nic.test. AAAA", "CNAME 8 2 300 20300101000000 20200101000000 2 nic.test. AAAA"],
 }
 TTL = 300
 
@@ -234,6 +236,7 @@ def _show(key):
 
 
 CNAME_T = 5
+RRSIG_CNAME_T = 46
 
 
 def _with(state, key, t, rds):
@@ -243,10 +246,11 @@ def _with(state, key, t, rds):
         # CNAME and other data exclude each other (dns.node): storing CNAME drops the node's other
         # record sets (an NS set included: the name stops being a cut), storing anything else
         # drops CNAME
-        if t == CNAME_T:
-            node = {}
+        if t in (CNAME_T, RRSIG_CNAME_T):
+            node = {k: v for k, v in node.items() if k in (CNAME_T, RRSIG_CNAME_T)}
         else:
             node.pop(CNAME_T, None)
+            node.pop(RRSIG_CNAME_T, None)
         node[t] = frozenset(rds)
     else:
         node.pop(t, None)
@@ -354,8 +358,10 @@ def _simulate(ctx, state, ops):
                     events.add("cut-created-above-existing-names")
         if low == "delrds" and t == BM.NS and is_cut:
             events.add("cut-ns-removed")
-        if low == "put" and t == CNAME_T and is_cut:
+        if low == "put" and t in (CNAME_T, RRSIG_CNAME_T) and is_cut:
             events.add("cname-put-at-cut")
+            if t == RRSIG_CNAME_T:
+                events.add("rrsig-cname-put-at-cut")
         if key == ctx.apex and t == BM.NS:
             events.add("apex-ns-change")
         if low == "put" and key not in state and pm.is_glue(key):
@@ -855,7 +861,7 @@ def _txn(draw, focus, maxops):
         n = draw(st.sampled_from([f for f in focus if f != 0] or [1]))
         ops = ops + [
             ["add", n, "NS", draw(st.integers(0, 1)), draw(st.integers(0, 1))],
-            [draw(st.sampled_from(["add", "replace"])), n, "CNAME", draw(st.integers(0, 1)), draw(st.integers(0, 1))],
+            [draw(st.sampled_from(["add", "replace"])), n, draw(st.sampled_from(["CNAME", "CNAME", "RRSIG"])), draw(st.integers(0, 1)), draw(st.integers(0, 1))],
         ] + ([["add", n, draw(st.sampled_from(["NS", "A"])), 0, 0]] if draw(st.booleans()) else [])
     return {
         "ops": ops,
@@ -986,6 +992,7 @@ def parts(tier):
                 "cut-created-above-existing-names": 50,
                 "cut-ns-removed": 50,
                 "cname-put-at-cut": 20,
+                "rrsig-cname-put-at-cut": 5,
                 "ns-put-below-cut": 30,
                 "new-name-below-cut": 30,
                 "node-deletion": 100,
